@@ -295,7 +295,11 @@ var rangeProved = map[string]func(c *Ctx, fn *ssa.Function) (bool, string){
 		}
 		for _, s := range sites {
 			arg := s.Common().Args[1]
-			ok, why := originsWithin(arg, func(v ssa.Value) bool {
+			root := s.Parent()
+			if rs := explorationRoots(c, root); len(rs) == 1 {
+				root = rs[0] // a helper extracted from Allocate is judged as part of Allocate
+			}
+			ok, why := staticOrigins(c, root, arg, func(v ssa.Value) bool {
 				if e, ok := v.(*ssa.Extract); ok && e.Index == 0 {
 					if call, ok := e.Tuple.(*ssa.Call); ok {
 						if g := call.Call.StaticCallee(); g != nil {
